@@ -3,7 +3,7 @@
    ScopeProofs.v), with the axioms it rests on. *)
 From Coq Require Import List String Bool Arith.
 From Utap Require Import SR OpTableRef ExprSyntax Scope ScopeProofs.
-From Utap Require Import CommentLex CommentLexProofs LexModel LexProofs LexSep.
+From Utap Require Import CommentLex CommentLexProofs LexModel LexProofs LexSep LexStable.
 From Utap.gen Require Import Gen_CommentRules Gen_LexRules.
 From Utap.gen Require Import Gen_OpTable.
 Import ListNotations.
@@ -103,6 +103,39 @@ Proof.
   rewrite Et, Ha in H. apply (symbol_is_solid gen_literals C09_literal_table_has_no_blanks). exact H.
 Qed.
 Print Assumptions C09_operator_literals_are_words.
+(* From a text written without blanks to one with (LexStable.v).  For every text: the lexeme the scanner finds at a position - token,
+   blank run, line comment, continuation line, line end, comment opener - is found again when a blank is written anywhere behind its
+   end; a token is found again when the blank is written directly behind it, unless the token is a lone double quote (a blank and a
+   second quote would make it a string).  Hence a blank written behind any token that the scanner reaches through tokens and
+   skipped lexemes leaves the token stream of the whole text as it is. *)
+Theorem C09_blank_further_back_keeps_the_lexeme : forall c, is_blank c = true -> forall x v,
+  lexeme_len (lex1 gen_literals (x ++ v)) < List.length x -> lex1 gen_literals (x ++ c :: v) = lex1 gen_literals (x ++ v).
+Proof. intros c Hc. exact (lex1_blank_further_back gen_literals C09_literal_table_has_no_blanks c Hc). Qed.
+Print Assumptions C09_blank_further_back_keeps_the_lexeme.
+Theorem C09_blank_behind_a_token_keeps_the_token : forall c, is_blank c = true -> forall x v k,
+  lex1 gen_literals (x ++ v) = Tok k (List.length x) -> k <> KLf -> k <> KCrLf -> (forall a, x = [a] -> (code a =? 34) = false) ->
+  lex1 gen_literals (x ++ c :: v) = Tok k (List.length x).
+Proof. intros c Hc. exact (lex1_blank_behind_token gen_literals C09_literal_table_has_no_blanks c Hc). Qed.
+Print Assumptions C09_blank_behind_a_token_keeps_the_token.
+Theorem C09_blank_behind_a_token_keeps_the_token_stream : forall c, is_blank c = true -> forall x v,
+  token_end gen_literals x v -> forall f, List.length (x ++ v) <= f -> lex gen_literals (S f) (x ++ c :: v) = lex gen_literals f (x ++ v).
+Proof. intros c Hc. exact (lex_blank_at_token_end gen_literals C09_literal_table_has_no_blanks c Hc). Qed.
+Print Assumptions C09_blank_behind_a_token_keeps_the_token_stream.
+(* the hypotheses are met by texts written without any blank: behind "<=" in "x<=5&&y" ("x" is a token, then "<=" ends at position 3) *)
+Example C09_token_end_example :
+  token_end gen_literals (list_ascii_of_string "x<="%string) (list_ascii_of_string "5&&y"%string) /\
+  lex gen_literals 8 (list_ascii_of_string "x<= 5&&y"%string) = lex gen_literals 7 (list_ascii_of_string "x<=5&&y"%string) /\
+  lex gen_literals 7 (list_ascii_of_string "x<=5&&y"%string) = Some [(KIdent, list_ascii_of_string "x"); (KLit "T_LEQ"%string, list_ascii_of_string "<="); (KNum, list_ascii_of_string "5"); (KLit "T_BOOL_AND"%string, list_ascii_of_string "&&"); (KIdent, list_ascii_of_string "y")].
+Proof.
+  split; [|split; vm_compute; reflexivity].
+  apply (TE_tok gen_literals (list_ascii_of_string "x"%string) (list_ascii_of_string "<="%string) (list_ascii_of_string "5&&y"%string) KIdent); [vm_compute; reflexivity | discriminate|].
+  apply (TE_here gen_literals (list_ascii_of_string "<="%string) (list_ascii_of_string "5&&y"%string) (KLit "T_LEQ"%string)); [vm_compute; reflexivity | discriminate | discriminate | intros a [=]].
+Qed.
+(* the excepted case is real: two double quotes are two tokens, with a blank between them they are one string *)
+Example C09_lone_quote_example :
+  lex gen_literals 5 (list_ascii_of_string """"""%string) <> lex gen_literals 5 (list_ascii_of_string """ """%string).
+Proof. vm_compute. discriminate. Qed.
+
 Example C09_words_example :
   lex gen_literals 20 (list_ascii_of_string ("guard   x9" ++ String (Ascii.ascii_of_nat 9) "  location 42 ")) =
   Some [(KIdent, list_ascii_of_string "guard"); (KIdent, list_ascii_of_string "x9"); (KLit "T_LOCATION", list_ascii_of_string "location"); (KNum, list_ascii_of_string "42")].
